@@ -74,7 +74,12 @@ func (l *Labels) FromBytes(data []byte) error {
 	if err != nil {
 		return err
 	}
-	l.original = data
+	// Keep a private copy: the caller may reuse its buffer.
+	l.original = nil
+	if data != nil {
+		l.original = make([]byte, len(data))
+		copy(l.original, data)
+	}
 	l.Labels = labs
 	return nil
 }
